@@ -61,6 +61,7 @@ LEAF_NAMES = ("ID", "String", "Int", "Float", "Boolean", "Color")
 
 FREE_WRAPS = ("{}", "{}!", "[{}]", "[{}!]", "[{}]!", "[{}!]!")
 FREE_WEIGHTS = (8, 3, 1, 1, 1, 1)
+NONNULL_WEIGHTS = (5, 7, 1, 1, 1, 1)  # focus "nullroot": failures propagate far
 LIST_WRAPS = ("[{}]", "[{}!]", "[{}]!", "[{}!]!")
 NESTED_WRAPS = ("[[{}]]", "[[{}!]!]", "[[{}]!]", "[[{}!]]!")
 
@@ -79,13 +80,14 @@ class Bad:
 class SchemaSpec:
     """What the tape drew for this run's schema."""
 
-    def __init__(self, tape, incremental=False):
+    def __init__(self, tape, incremental=False, nonnull_bias=False):
         self.incremental = incremental
         self.wrap = {}
         for name, named, mode, _args in POOL:
             if mode == 0:
                 # interface-declared fields stay simple more often
-                self.wrap[name] = FREE_WRAPS[tape.weighted(FREE_WEIGHTS, "wrap")]
+                self.wrap[name] = FREE_WRAPS[tape.weighted(
+                    NONNULL_WEIGHTS if nonnull_bias else FREE_WEIGHTS, "wrap")]
             elif mode == 1:
                 self.wrap[name] = LIST_WRAPS[tape.draw(4, "lwrap")]
             else:
